@@ -12,8 +12,15 @@
    integer column here).  vguard ops = in the history no update (assignment,
    set, restore) is refused AFTER its RowUpdateSignal went out and its values
    passed validation, i.e. by the DATABASE or by set() for an unknown keyword
-   (VSetBad); updates refused by validation, failing creations (also refused by the database),
-   restores of unknown versions, unknown masters may all occur. *)
+   (VSetBad), and nothing is destroyed; updates refused by validation, failing
+   creations (also refused by the database), restores of unknown versions,
+   unknown masters, nextVersion / getChangedFields calls may all occur.
+   vguard_r ops = only the refusals are excluded: masters and versions may be
+   destroyed (VDestroy m = master.destroySelf(), VDestroyVer vid =
+   Version.get(vid).destroySelf()).  Ghosts read by nothing: arch = every
+   version ever archived (v_tbl without the deletions), archived_of m = those
+   of master m, gone = the ids of the destroyed versions.  On histories of
+   create/assign/set/restore vguard is the guard of the earlier rounds. *)
 From Coq Require Import List ZArith NArith Bool.
 From Model Require Import Events Versioning.
 From Proofs Require Import VersioningBase Versioning.
@@ -113,6 +120,116 @@ Example C20_fixed_restore_foreign_connection :
   /\ row_of 1 (m_tbl (w_decoy (wfinal true winit ops_foreign))) = Some [(CA, VInt 101); (CB, VStr [100%N]); (CC, VInt 7)].
 Proof. vm_compute. repeat split. Qed.
 
+(* ------------------------------------------------------------------ destroySelf of masters and of versions *)
+(* master.destroySelf(), in every history (no guard): the row goes, the other
+   rows stay, the version table is not touched: the versions stay behind as
+   orphans filed under the id; the id counter does not move *)
+Theorem C20_destroy_master_keeps_versions :
+  forall ops w m, In w (vrun vinit ops) -> w_op w = VDestroy m -> w_out w = VDone ->
+    row_of m (m_tbl (w_post w)) = None
+    /\ (forall m', m' <> m -> row_of m' (m_tbl (w_post w)) = row_of m' (m_tbl (w_pre w)))
+    /\ v_tbl (w_post w) = v_tbl (w_pre w) /\ m_next (w_post w) = m_next (w_pre w)
+    /\ hist (w_post w) = hist (w_pre w).
+Proof. exact (@hist_destroy_master). Qed.
+
+(* ... and a master created later, in every history (no guard, so also after
+   destroys and refused updates), gets an id under which no version -- alive
+   or destroyed, of an existing or of a destroyed master -- was ever filed: it
+   starts with no versions and a one-entry history *)
+Theorem C20_new_master_never_sees_old_versions :
+  forall ops w kw, In w (vrun vinit ops) -> w_op w = VCreate kw -> w_out w = VDone ->
+    exists r, m_tbl (w_post w) = m_tbl (w_pre w) ++ [(m_next (w_pre w), r)]
+      /\ row_of (m_next (w_pre w)) (m_tbl (w_pre w)) = None
+      /\ (forall ver, In ver (arch (w_post w)) -> v_master ver <> m_next (w_pre w))
+      /\ versions_of (m_next (w_pre w)) (w_post w) = []
+      /\ hist_of (m_next (w_pre w)) (w_post w) = [r].
+Proof. exact (@hist_create_fresh). Qed.
+
+(* Version.destroySelf(), in every history (no guard): exactly that row of the
+   version table goes; rows, histories and the record of what was archived stay *)
+Theorem C20_destroy_version :
+  forall ops w vid, In w (vrun vinit ops) -> w_op w = VDestroyVer vid -> w_out w = VDone ->
+    v_tbl (w_post w) = filter (fun x => negb (Z.eqb (v_id x) vid)) (v_tbl (w_pre w))
+    /\ gone (w_post w) = vid :: gone (w_pre w) /\ arch (w_post w) = arch (w_pre w)
+    /\ m_tbl (w_post w) = m_tbl (w_pre w) /\ hist (w_post w) = hist (w_pre w).
+Proof. exact (@hist_destroy_version). Qed.
+(* nothing else removes a version or marks one as destroyed *)
+Theorem C20_versions_only_removed_by_destroy :
+  forall ops w, In w (vrun vinit ops) -> (forall vid, w_op w <> VDestroyVer vid) ->
+    gone (w_post w) = gone (w_pre w) /\ (forall x, In x (v_tbl (w_pre w)) -> In x (v_tbl (w_post w))).
+Proof. exact (@hist_gone_only_by_destroy). Qed.
+
+(* histories that continue after destroys (only the refusals excluded): for
+   every existing master the versions EVER archived for it followed by its row
+   are exactly its history, and master.versions is that list without the
+   destroyed versions, in order.  (With nothing destroyed: C20_history_inv_partial.) *)
+Theorem C20_history_with_destroys_partial :
+  forall ops w m r, vguard_r ops = true -> In w (vrun vinit ops) -> row_of m (m_tbl (w_post w)) = Some r ->
+    map v_vals (archived_of m (w_post w)) ++ [r] = hist_of m (w_post w)
+    /\ versions_of m (w_post w) = filter (alive (gone (w_post w))) (archived_of m (w_post w)).
+Proof. exact (@hist_inv_destroy). Qed.
+
+(* no mixing with destroys: every version in the table, also an orphan of a
+   destroyed master, is filed under an id that was handed out and holds a
+   state of the history of THAT id *)
+Theorem C20_no_mixing_with_destroys_partial :
+  forall ops w ver, vguard_r ops = true -> In w (vrun vinit ops) -> In ver (v_tbl (w_post w)) ->
+    v_master ver < m_next (w_post w) /\ In (v_vals ver) (hist_of (v_master ver) (w_post w)).
+Proof. exact (@hist_no_mixing_destroy). Qed.
+
+(* ------------------------------------------------------------------ nextVersion / getChangedFields *)
+(* in every history (no guard, destroys included): if ver stands in its
+   master's version list between l1 and l2, nextVersion() returns the head of
+   l2 -- the next version of the same master still there -- or, when ver is the
+   last one, the master itself (SQLObjectNotFound when it was destroyed); the
+   state is not changed *)
+Theorem C20_next_version :
+  forall ops w vid ver l1 l2, In w (vrun vinit ops) -> w_op w = VNext vid ->
+    find_version vid (v_tbl (w_pre w)) = Some ver ->
+    versions_of (v_master ver) (w_pre w) = l1 ++ ver :: l2 ->
+    w_post w = w_pre w /\ w_out w = next_outcome (successor (w_pre w) ver l2).
+Proof. exact (@hist_next_version). Qed.
+
+(* getChangedFields() = the columns in which the version differs from that successor *)
+Theorem C20_changed_fields :
+  forall ops w vid ver l1 l2, In w (vrun vinit ops) -> w_op w = VChanged vid ->
+    find_version vid (v_tbl (w_pre w)) = Some ver ->
+    versions_of (v_master ver) (w_pre w) = l1 ++ ver :: l2 ->
+    w_post w = w_pre w /\ w_out w = changed_outcome ver (successor (w_pre w) ver l2).
+Proof. exact (@hist_changed_fields). Qed.
+
+(* against the history (guarded histories, existing master): version number k
+   of master m holds state k of m's history and getChangedFields() names
+   exactly the columns in which state k and state k+1 differ *)
+Theorem C20_changed_fields_history_partial :
+  forall ops w vid ver l1 l2 r, vguard ops = true -> In w (vrun vinit ops) -> w_op w = VChanged vid ->
+    find_version vid (v_tbl (w_pre w)) = Some ver ->
+    versions_of (v_master ver) (w_pre w) = l1 ++ ver :: l2 ->
+    row_of (v_master ver) (m_tbl (w_pre w)) = Some r ->
+    v_vals ver = nth (length l1) (hist_of (v_master ver) (w_pre w)) []
+    /\ w_out w = VFields (diff_cols (nth (length l1) (hist_of (v_master ver) (w_pre w)) [])
+                                    (nth (S (length l1)) (hist_of (v_master ver) (w_pre w)) [])).
+Proof. exact (@hist_changed_fields_history). Qed.
+
+(* masters on a foreign connection: every operation -- nextVersion() and
+   getChangedFields() included, since 7323516 -- answers exactly as the
+   class-mode history on the instance's connection does *)
+Theorem C20_foreign_outcomes :
+  forall foreign ws o, snd (wstep foreign ws o) = snd (vstep (w_main ws) o).
+Proof. exact (@wstep_outcome). Qed.
+
+(* regression of next_version_ignores_version_connection (fixed by 7323516):
+   after create(a=1); b='x'; a=2 on a foreign connection, whose class database
+   holds other versions under the same master ids, nextVersion() of version 1
+   is version 2 of ITS master (before the fix: the master itself) and
+   getChangedFields() says [b] (before: [a; b]); of version 2: the master, [a] *)
+Example C20_fixed_next_version_foreign_connection :
+  map (fun o => snd (wstep true (wfinal true winit ops_next_foreign) o)) [VNext 1; VChanged 1; VNext 2; VChanged 2]
+  = [VNextV {| v_id := 2; v_master := 1; v_vals := [(CA, VInt 1); (CB, VStr [120%N]); (CC, VInt 7)] |}; VFields [CB];
+     VNextM 1 [(CA, VInt 2); (CB, VStr [120%N]); (CC, VInt 7)]; VFields [CA]]
+  /\ v_tbl (w_decoy (wfinal true winit ops_next_foreign)) = v_tbl vdecoy.
+Proof. vm_compute. split; reflexivity. Qed.
+
 (* ------------------------------------------------------------------ non-vacuity *)
 Definition ex_ops : list vop :=
   [VCreate [(CA, VInt 1)]; VCreate [(CA, VInt 2); (CB, VStr [120%N])]; VAssign 1 CA (VInt 5);
@@ -143,6 +260,38 @@ Example C20_fixed_refused_by_validation :
   map (fun w => (w_out w, length (v_tbl (w_post w)))) (vrun vinit ops_invalid) = [(VDone, 0%nat); (VExn XInvalid, 0%nat)].
 Proof. vm_compute. reflexivity. Qed.
 
+(* histories with destroys and the two read-only calls *)
+Definition ex_ops_d : list vop :=
+  [VCreate [(CA, VInt 1)]; VCreate [(CA, VInt 2)]; VAssign 1 CB (VStr [120%N]); VAssign 1 CA (VInt 5); VAssign 2 CB (VStr [121%N]);
+   VAssign 1 CC (VInt 3); VNext 1; VChanged 1; VNext 4; VChanged 4; VDestroyVer 2; VNext 1; VChanged 1; VAssign 1 CA (VInt 6);
+   VDestroy 1; VNext 5; VChanged 4; VRestore 1; VCreate [(CA, VInt 9)]; VAssign 3 CB (VStr [122%N]); VDestroyVer 2; VDestroy 1;
+   VDestroyVer 5; VAssign 3 CA (VInt 1)].
+Example C20_guard_r_nonvacuous : vguard_r ex_ops_d = true /\ vguard ex_ops_d = false.
+Proof. vm_compute. split; reflexivity. Qed.
+Example C20_outcomes_d :
+  map w_out (vrun vinit ex_ops_d)
+  = [VDone; VDone; VDone; VDone; VDone; VDone;
+     VNextV {| v_id := 2; v_master := 1; v_vals := [(CA, VInt 1); (CB, VStr [120%N]); (CC, VInt 7)] |}; VFields [CB];
+     VNextM 1 [(CA, VInt 5); (CB, VStr [120%N]); (CC, VInt 3)]; VFields [CC];
+     VDone;
+     VNextV {| v_id := 4; v_master := 1; v_vals := [(CA, VInt 5); (CB, VStr [120%N]); (CC, VInt 7)] |}; VFields [CA; CB];
+     VDone; VDone; VExn XNotFound; VFields [CC]; VExn XNotFound; VDone; VDone; VExn XNotFound; VNoHandle; VDone; VDone].
+Proof. vm_compute. reflexivity. Qed.
+(* master 1 destroyed: its three remaining versions stay; master 3, created afterwards, never sees them *)
+Example C20_example_destroy :
+  map (fun x => (v_id x, v_master x)) (v_tbl (vfinal vinit ex_ops_d)) = [(1, 1); (3, 2); (4, 1); (6, 3); (7, 3)]
+  /\ gone (vfinal vinit ex_ops_d) = [5; 2]
+  /\ map fst (m_tbl (vfinal vinit ex_ops_d)) = [2; 3]
+  /\ map v_id (versions_of 3 (vfinal vinit ex_ops_d)) = [6; 7]
+  /\ length (hist_of 1 (vfinal vinit ex_ops_d)) = 5%nat.
+Proof. vm_compute. repeat split; reflexivity. Qed.
+(* the guarded history ex_ops extended by the read-only calls: the premises of C20_changed_fields_history_partial can be met *)
+Example C20_changed_fields_nonvacuous :
+  vguard (ex_ops ++ [VChanged 3; VNext 5; VChanged 5]) = true
+  /\ map w_out (vrun ex_final [VChanged 3; VNext 5; VChanged 5])
+     = [VFields [CB]; VNextM 1 [(CA, VInt 1); (CB, VNull); (CC, VInt 7)]; VFields []].
+Proof. vm_compute. split; reflexivity. Qed.
+
 Print Assumptions C20_history_inv_refuted.
 Print Assumptions C20_db_refused_update_leaves_version_refuted.
 Print Assumptions C20_keyword_refused_set_leaves_version_refuted.
@@ -152,3 +301,13 @@ Print Assumptions C20_refused_by_validation_changes_nothing.
 Print Assumptions C20_one_version_per_update.
 Print Assumptions C20_restore.
 Print Assumptions C20_no_mixing_partial.
+Print Assumptions C20_destroy_master_keeps_versions.
+Print Assumptions C20_new_master_never_sees_old_versions.
+Print Assumptions C20_destroy_version.
+Print Assumptions C20_versions_only_removed_by_destroy.
+Print Assumptions C20_history_with_destroys_partial.
+Print Assumptions C20_no_mixing_with_destroys_partial.
+Print Assumptions C20_next_version.
+Print Assumptions C20_changed_fields.
+Print Assumptions C20_changed_fields_history_partial.
+Print Assumptions C20_foreign_outcomes.
